@@ -266,14 +266,23 @@ def gen_plan(r, tier, index):
         h0_ = pa_["handles"][0]
         h0_.update({"readonly": False, "coll_bufsize": r.choice([-1, 0]), "pickled": False})
         ops_ = []
+        # ... or TWO puts cut short: a long block first, whose remains reach far past the end of the library, then a short
+        # one whose few bytes land inside those remains - header and half a key of the second, the rest of "its" block
+        # supplied by the first (found by the thorough tier as a record nobody stored; repaired by f023e19).
+        twice_ = r.random() < 0.5
         for q_ in range(4):
             tag += 1
-            ops_.append({"op": "put", "k": f"p{pa_['pid']:02d}c0k{tag:04d}", "v": [tag, r.choice([200, 200, 3000])]})
+            n_ = [r.choice([1, 200]), 3000, r.choice([1, 200]), 200][q_] if twice_ else r.choice([200, 200, 3000])
+            ops_.append({"op": "put", "k": f"p{pa_['pid']:02d}c0k{tag:04d}", "v": [tag, n_]})
         pa_["script"] = [{"h": 0, "kind": "w", "catch": True, "think": 0, "timeout": None, "ops": ops_}] + pa_["script"][:2]
         caught_partial = pa_["pid"]
     faults = []
     if caught_partial is not None:
-        faults.append({"kind": "enospc", "pid": caught_partial, "op": "write", "nth": r.choice([2, 3, 4, 5]), "phase": "s0:body", "arg": r.randrange(7, 150)})
+        if twice_:
+            faults.append({"kind": "enospc", "pid": caught_partial, "op": "write", "nth": 2, "phase": "s0:body", "arg": r.randrange(300, 2500)})
+            faults.append({"kind": "enospc", "pid": caught_partial, "op": "write", "nth": r.choice([4, 5, 5]), "phase": "s0:body", "arg": r.randrange(6, 40)})
+        else:
+            faults.append({"kind": "enospc", "pid": caught_partial, "op": "write", "nth": r.choice([2, 3, 4, 5]), "phase": "s0:body", "arg": r.randrange(7, 150)})
     if same_size is not None:
         faults.append({"kind": "eio", "pid": procs[same_size]["pid"], "op": "write", "nth": 1, "phase": "s0:exit", "arg": 1})
     wsessions = [(pi, si) for pi, p in enumerate(procs) for si, s in enumerate(p["script"]) if s["kind"] == "w"]
@@ -308,7 +317,7 @@ def gen_plan(r, tier, index):
                            "nth": r.choice([1, 1, 2, 3]), "phase": f"s{si}:" + r.choice(["exit", "exit", "body"]),
                            "arg": r.randrange(1, 5000)})
     plan = {
-        "check": CHECK, "directed": "lost-close-then-same-size-append" if same_size is not None else ("name-re-pointed-to-the-other-library" if retarget else ("put-cut-short-then-caught" if caught_partial is not None else None)),
+        "check": CHECK, "directed": "lost-close-then-same-size-append" if same_size is not None else ("name-re-pointed-to-the-other-library" if retarget else (("two-puts-cut-short-then-caught" if twice_ else "put-cut-short-then-caught") if caught_partial is not None else None)),
         "master_overwrite": r.random() < 0.2,
         "bufsize": 64 if caught_partial is not None else r.choice([8192, 4096, 4096, 65536, 64]), "payload": r.choice(["dict", "dict", "dict", "mol"]),
         "nlibs": nlibs, "create_race": create_race, "procs": procs, "faults": faults,
